@@ -462,6 +462,8 @@ def _conc_cond(shape: Dict[str, Any], t: str) -> List[Any]:
     elif vk == "seq":
         items = [cv(x) for x in xs]
         vals = [items, tuple(items)]
+    elif vk == "mixed":
+        vals = [[cv(xs[0]), 5 if t == "string" else "x"]]
     else:
         raise MachineryError(f"unknown value kind {shape}")
     return [(op, v) for v in vals]
